@@ -750,7 +750,7 @@ func c02Gen(o *out, r *rng, tier string) {
 // ---- C16: registration of valid templates, single-edit mutations, selectors, collisions ----
 
 var c16Alphabet = []string{"/", "{", "}", "=", "*", ".", ":", "a", "A", "1", "-", "_", "é", " "}
-var c16Bodies = []string{"", "", "", "*", "nest", "nest.deep", "s1", "zz", "rep", "nest.a", "rnest", "nest.zz"}
+var c16Bodies = []string{"", "", "", "*", "nest", "nest.deep", "s1", "zz", "rep", "nest.a", "rnest", "nest.zz", "rnest.deep", "rnest.a", "nest.deep.x"}
 
 func c16Gen(o *out, r *rng, tier string) {
 	n := 160
@@ -783,6 +783,28 @@ func c16Gen(o *out, r *rng, tier string) {
 	emit(1, []c01Method{{Svc: "S1", Name: "M", Bindings: []c01Binding{{Verb: "GET", Tmpl: "/a"}, {Verb: "POST", Tmpl: "/b/{zz}"}}}})
 	emit(1, []c01Method{{Svc: "S1", Name: "M", Bindings: []c01Binding{{Verb: "GET", Tmpl: "/a"}, {Verb: "POST", Tmpl: "/b", Nested: true}}}})
 	emit(0, []c01Method{{Svc: "S1", Name: "M", Bindings: []c01Binding{{Verb: "GET", Tmpl: "/a"}, {Verb: "GET", Tmpl: "/a"}, {Verb: "GET", Tmpl: "/c"}}}})
+	// a rejected service whose earlier, well-formed bindings reach below the base's variable nodes and
+	// would take over the probed base routes (a literal beats a variable) had they been kept
+	hij := []c01Binding{{Verb: "PUT", Tmpl: "/base/{s1}/sub/aa/w:act", Body: "*"}, {Verb: "GET", Tmpl: "/base/v"},
+		{Verb: "PUT", Tmpl: "/base/{s1}/sub/{s2=aa/w}:act"}, {Verb: "*", Tmpl: "/base/{s1}"}, {Verb: "PUT", Tmpl: "/base/v/sub/{s3=aa/*}:act"},
+		{Verb: "POST", Tmpl: "/verif.rt.B0/Get"}}
+	bad := []c01Binding{{Verb: "POST", Tmpl: "/b/{zz}"}, {Verb: "GET", Tmpl: "/b/{s1"}, {Verb: "GET", Tmpl: "/b", Body: "zz"}, {Verb: "GET", Tmpl: "/c", Nested: true}}
+	for i, h := range hij {
+		for j, b := range bad {
+			k := (i + j) % 3
+			if b.Nested && k == 1 {
+				k = 0 // "nested" only means something on an additional binding
+			}
+			switch k {
+			case 0: // additional binding of the same rule fails
+				emit(1, []c01Method{{Svc: "S1", Name: "M", Bindings: []c01Binding{h, b}}})
+			case 1: // a later method of the same service fails
+				emit(1, []c01Method{{Svc: "S1", Name: "M1", Bindings: []c01Binding{h}}, {Svc: "S1", Name: "M2", Bindings: []c01Binding{b}}})
+			default: // the annotation is fine, the service-config rule fails
+				emit(1, []c01Method{{Svc: "S1", Name: "M", Bindings: []c01Binding{h}, Config: []c01Binding{{Verb: "GET", Tmpl: "/cfg/{s2}"}, b}}})
+			}
+		}
+	}
 	// long templates around the 64-token cap
 	for k := 28; k <= 33; k++ {
 		emit(0, one(strings.Repeat("/a", k), ""))
